@@ -4,6 +4,7 @@ import ast
 from ..core.loader import AnalysisError, own_nodes, norm, enclosing_stmt
 from ..core import astq
 from ..core import dims as D
+from ..core.cfg import guards_of
 from . import common as K
 from . import discretise
 
@@ -31,6 +32,7 @@ def run(ctx):
     ctx.each(r03b, ctx, repo)
     ctx.each(r03c, ctx, repo)
     ctx.each(r03d, ctx, repo)
+    ctx.each(r03f, ctx, repo)
     ctx.each(discretise.snap_tolerance_rule, ctx, repo, "R03e", [("project", "_n_steps")])
 
 
@@ -256,3 +258,51 @@ def r03d(ctx, repo):
     for s in w:
         # a copy (so not a view) - or never modified (checked above)
         ctx.ok("R03d", fi, "weights bound from `%s`" % ast.unparse(s.value)[:60], s)
+
+
+def r03f(ctx, repo):
+    from ..core import boolx as B
+
+    ctx.rule("R03f", "the end year is always on the grid start + k*dt: in ProjectSettings every raw write of _sim_start or _sim_dt is followed, under every condition in which the write happens, by the snapping assignment `self.sim_end = ...` (whose setter rounds the span up to whole steps) - in the setters directly, in update_time_vector on the path that writes _sim_dt itself, in __init__ through update_time_vector(end=...)")
+    ci = repo.cls("project", "ProjectSettings")
+    n = 0
+    funcs = list(ci.methods.values()) + list(ci.setters.values())
+    seen = set()
+    for fi in funcs:
+        if id(fi.node) in seen:
+            continue
+        seen.add(id(fi.node))
+        me = K.self_name(fi)
+        raws = [s for s in own_nodes(fi.node) if isinstance(s, ast.Assign) and ast.unparse(s.targets[0]) in ("%s._sim_start" % me, "%s._sim_dt" % me)]
+        if not raws:
+            continue
+        snaps = [s for s in own_nodes(fi.node) if (isinstance(s, ast.Assign) and ast.unparse(s.targets[0]) == "%s.sim_end" % me) or (isinstance(s, ast.Expr) and isinstance(s.value, ast.Call) and ast.unparse(s.value.func) == "%s.update_time_vector" % me and astq.kwarg(s.value, "end", pos=1) is not None)]
+        for r in raws:
+            n += 1
+            later = [s for s in snaps if s.lineno > r.lineno]
+            ok = False
+            for s in later:
+                try:
+                    ok = ok or B.implies(B.cond(guards_of(r, asserts=False)), B.cond(guards_of(s, asserts=False)))
+                except ValueError:
+                    pass
+            ctx.check(ok, "R03f", fi, r, "`%s` is followed by the re-snapping of the end year" % norm(r), "`%s` changes the start year or the step size but the end year is not re-snapped afterwards under the same conditions (%s): the time vector is then linspace(start, end) with a spacing that differs from dt while the model steps with dt, so output times are not start + k*dt" % (norm(r), "; ".join("line %d under `%s`" % (s.lineno, " and ".join(("" if p_ else "not ") + ast.unparse(t)[:40] for t, p_ in guards_of(s, asserts=False)) or "always") for s in later) or "no snapping assignment follows"))
+    ctx.require(n >= 4, "R03f: fewer raw writes of _sim_start / _sim_dt (%d) than confirmed (4)" % n)
+    # the setter itself snaps: _sim_end = start + _n_steps(start, end, dt) * dt
+    st = ci.setters.get("sim_end")
+    ctx.require(st is not None, "R03f: sim_end setter not found")
+    from ..core import algebra as A
+
+    me = K.self_name(st)
+    a = [s for s in own_nodes(st.node) if isinstance(s, ast.Assign) and ast.unparse(s.targets[0]) == "%s._sim_end" % me]
+    ok = len(a) == 1
+    if ok:
+        try:
+            ok = A.poly(a[0].value) == A.poly(A.parse("%s.sim_start + _n_steps(%s.sim_start, %s, %s.sim_dt) * %s.sim_dt" % (me, me, st.params[1], me, me)))
+        except A.NotPolynomial:
+            ok = False
+    ctx.check(ok, "R03f", st, a[0] if a else st.node, "sim_end = start + n_steps * dt", "the sim_end setter does not store start + _n_steps(start, end, dt) * dt", stmt_text="setter-formula")
+    tv = ci.methods.get("tvec")
+    rets = [r for r in own_nodes(tv.node) if isinstance(r, ast.Return)] if tv else []
+    ok = len(rets) == 1 and ast.unparse(rets[0].value) == "np.linspace(%s.sim_start, %s.sim_end, _n_steps(%s.sim_start, %s.sim_end, %s.sim_dt) + 1)" % ((K.self_name(tv),) * 5)
+    ctx.check(ok, "R03f", tv if tv else st, rets[0] if rets else st.node, "tvec = linspace(start, end, n_steps + 1)", "tvec is not np.linspace(start, end, _n_steps(start, end, dt) + 1)", stmt_text="tvec-formula")
